@@ -967,3 +967,165 @@ B('cache-unbound-result-on-failure', ['C01'], ['C01-U1'],
                         logger.debug('computed %r', result)
                         # Wake up any waiting tasks
                         event.set()"""))
+
+# --- round 3 rules (pass 8 / seeded wave 9) ----------------------------------------------------------
+_FLOCK = "        fcntl.flock(fd,  fcntl.LOCK_EX | (0 if block else fcntl.LOCK_NB))\n"
+B('oslock-retry-runs-out', ['C02'], ['C02-R5'],
+  (F, _FLOCK, """        flags = fcntl.LOCK_EX | (0 if block else fcntl.LOCK_NB)
+        for attempt in range(1, 4):
+            try:
+                return fcntl.flock(fd, flags)
+            except OSError as e:
+                if e.errno != 37 or attempt > 3:
+                    raise
+                time.sleep(0.01 * attempt)
+"""))
+T('oslock-retry-gives-up', ['C02'],
+  (F, _FLOCK, """        flags = fcntl.LOCK_EX | (0 if block else fcntl.LOCK_NB)
+        for attempt in range(1, 4):
+            try:
+                return fcntl.flock(fd, flags)
+            except OSError as e:
+                if e.errno != 37 or attempt >= 3:
+                    raise
+                time.sleep(0.01 * attempt)
+"""))
+B('oslock-swallowed-refusal', ['C02'], ['C02-R5'],
+  (F, _FLOCK, """        try:
+            fcntl.flock(fd,  fcntl.LOCK_EX | (0 if block else fcntl.LOCK_NB))
+        except InterruptedError:
+            pass
+"""))
+B('oslock-lockf-fallback', ['C02'], ['C02-R5'],
+  (F, _FLOCK, """        flags = fcntl.LOCK_EX | (0 if block else fcntl.LOCK_NB)
+        try:
+            fcntl.flock(fd, flags)
+        except OSError as exc:
+            if exc.errno in (11, 13):
+                raise
+            fcntl.lockf(fd, flags)
+"""))
+_ACQ_CTX_END = """        try:
+            yield
+        finally:
+            self.release()
+
+    def release(self, force: bool = False) -> None:"""
+T('lock-try-ctx-reports-answer', ['C02', 'C12'],
+  (F, _ACQ_CTX_END, """        try:
+            yield
+        finally:
+            self.release()
+
+    def try_acquire(self) -> bool:
+        return self.acquire(blocking=False)
+
+    @contextlib.contextmanager
+    def try_acquire_ctx(self) -> Yields[bool]:
+        if not self.try_acquire():
+            yield False
+            return
+        try:
+            yield True
+        finally:
+            self.release()
+
+    def release(self, force: bool = False) -> None:"""))
+B('lock-try-ctx-promises-without-lock', ['C02'], ['C02-R12'],
+  (F, _ACQ_CTX_END, """        try:
+            yield
+        finally:
+            self.release()
+
+    @contextlib.contextmanager
+    def try_acquire_ctx(self) -> Yields[bool]:
+        if not self.acquire(blocking=False):
+            yield True
+            return
+        try:
+            yield True
+        finally:
+            self.release()
+
+    def release(self, force: bool = False) -> None:"""))
+B('lock-try-ctx-keeps-lock', ['C12'], ['C12-R14'],
+  (F, _ACQ_CTX_END, """        try:
+            yield
+        finally:
+            self.release()
+
+    @contextlib.contextmanager
+    def try_acquire_ctx(self) -> Yields[bool]:
+        got = self.acquire(blocking=False)
+        yield got
+
+    def release(self, force: bool = False) -> None:"""))
+T('lock-try-ctx-yields-result', ['C02', 'C12'],
+  (F, _ACQ_CTX_END, """        try:
+            yield
+        finally:
+            self.release()
+
+    @contextlib.contextmanager
+    def try_acquire_ctx(self) -> Yields[bool]:
+        got = self.acquire(blocking=False)
+        try:
+            yield got
+        finally:
+            if got:
+                self.release()
+
+    def release(self, force: bool = False) -> None:"""))
+_DELIVER = """                async for key, result in self.func(args):
+                    fut = futs.pop(key)
+"""
+B('bat-results-buffered', ['C04', 'C09'], ['C04-B11', 'C09-R6'],
+  (A, """                async for key, result in self.func(args):
+                    fut = futs.pop(key)
+                    if isinstance(result, Exception):
+                        fut.set_exception(result)
+                    else:
+                        fut.set_result(result)
+""", """                results = [kr async for kr in self.func(args)]
+            for key, result in results:
+                fut = futs.pop(key)
+                if isinstance(result, Exception):
+                    fut.set_exception(result)
+                else:
+                    fut.set_result(result)
+"""))
+B('bat-iterable-aclosed', ['C04'], ['C04-B11'],
+  (A, "            async with self._semaphore:  # Limit concurrent executions\n", "            async with self._semaphore, contextlib.aclosing(self.func(args)) as results:\n"),
+  (A, "                async for key, result in self.func(args):\n", "                async for key, result in results:\n"),
+  (A, "from itertools import islice\n", "from itertools import islice\nimport contextlib\n"))
+T('bat-iterable-in-a-local', ['C04', 'C09'],
+  (A, "                async for key, result in self.func(args):\n", "                results = self.func(args)\n                async for key, result in results:\n"))
+B('bat-popped-then-skipped', ['C04'], ['C04-B5'],
+  (A, _DELIVER, _DELIVER + "                    if key in self._skip:\n                        continue\n"),
+  (A, "        self._retention_cache = {}\n", "        self._retention_cache = {}\n        self._skip: Set[str] = set()\n"))
+T('bat-popped-done-skipped', ['C04'],
+  (A, _DELIVER, _DELIVER + "                    if fut.done():\n                        continue\n"))
+_RUN = """            if inputs:  # Could be empty if all empty iterators
+                await self.func(inputs)
+"""
+B('buf-bookkeeping-after-success-in-try', ['C03'], ['C03-S11'],
+  (A, _RUN, _RUN + "                self._rate = len(inputs) / (self.loop.time() - self._t0)\n"),
+  (A, "        self._getting: Optional['aio.Task[AsyncIterable[T]]'] = None\n", "        self._getting: Optional['aio.Task[AsyncIterable[T]]'] = None\n        self._t0 = 0.\n        self._rate = 0.\n"))
+T('buf-bookkeeping-after-success-in-else', ['C03'],
+  (A, "        else:\n            self.event.set()\n\n    def _schedule_with_timeout", "        else:\n            self.event.set()\n            self._calls = getattr(self, '_calls', 0) + 1\n\n    def _schedule_with_timeout"))
+B('cache-own-exception-on-wait-path', ['C06'], ['C06-R9'],
+  (A, "            # Need to wait for another task, possibly across threads\n", "            # Need to wait for another task, possibly across threads\n            if kwargs.get('_nowait'):\n                raise RuntimeError('value is being computed')\n"))
+T('cache-cannot-happen-narrowing', ['C06'],
+  (A, "            # Need to wait for another task, possibly across threads\n", "            # Need to wait for another task, possibly across threads\n            if event is None:\n                raise RuntimeError('no event')\n"))
+T('lock-release-hook-after-everything', ['C12'],
+  (F, """        except RuntimeError:  # not reentrant and already unlocked
+            pass
+""", """        except RuntimeError:  # not reentrant and already unlocked
+            pass
+        hook = getattr(self, '_on_release', None)
+        if hook is not None:
+            try:
+                hook(self)
+            except Exception:
+                pass
+"""))
